@@ -66,8 +66,9 @@ def print_assumptions(output):
             closed += 1
         elif ln.startswith('Axioms:'):
             i += 1
-            while i < len(lines) and (lines[i].startswith(' ') or re.match(r'^[A-Za-z_][\w.]*\s*:', lines[i])):
-                m = re.match(r'^([A-Za-z_][\w.\']*)\s*:', lines[i])
+            # each axiom: its name at column 0, then ` : type` on the same or on following (indented) lines
+            while i < len(lines) and (lines[i].startswith(' ') or re.match(r'^[A-Za-z_][\w.\']*(\s*:|\s*$)', lines[i])):
+                m = re.match(r'^([A-Za-z_][\w.\']*)(\s*:|\s*$)', lines[i])
                 if m:
                     axioms.add(m.group(1))
                 i += 1
